@@ -165,6 +165,10 @@ pub fn monitors<P: Payload>(ctx: &Ctx, st: &mut State<P>, info: &StepInfo<P>, he
             if tok {
                 obs += push(&mut fs, mon::c08_drops(&st.model, true)).unwrap_or(0);
             }
+            if heavy && rng.chance(1, 6) {
+                obs += push(&mut fs, mon::c08_clone_from_probe(st, rng)).unwrap_or(0);
+                cov.bump("clone_from_probes");
+            }
         }
         "C09" => {
             if heavy {
@@ -339,6 +343,19 @@ fn judge(ctx: &Ctx, fs: &[Finding], cov: &mut Cov, workload: &str, step: usize, 
     (None, true)
 }
 
+/// slot-level agreement between arena and model: the ids the model hands out as arguments are valid
+fn liveness_agrees<P: Payload>(st: &State<P>) -> bool {
+    guarded(|| {
+        let m = &st.model;
+        if st.arena.count() != m.slot_count() {
+            return false;
+        }
+        let s = st.arena.as_slice();
+        m.slot_cur.iter().enumerate().all(|(i, c)| s[i].is_removed() != c.map_or(false, |h| m.is_live(h)))
+    })
+    .unwrap_or(false)
+}
+
 pub struct W1Cfg {
     pub size: Size,
     pub len: usize,
@@ -376,6 +393,9 @@ pub fn run_w1<P: Payload>(ctx: &Ctx, cfg: &W1Cfg, index: u64, cov: &mut Cov, hoo
     }
     let mut violation = None;
     let mut outcome_log: Vec<String> = Vec::new();
+    let raw_prop = ctx.is("C01") || ctx.is("C02");
+    let mut blind = false;
+    let mut blind_steps = 0usize;
     for step in 0..len {
         let op = gen.next_op(&mut rng, &st.model);
         ops.push(op.clone());
@@ -398,9 +418,35 @@ pub fn run_w1<P: Payload>(ctx: &Ctx, cfg: &W1Cfg, index: u64, cov: &mut Cov, hoo
         if !info.diverged {
             fs.extend(hook.after_step(ctx, &mut st, &info, heavy, &mut rng, cov));
         }
+        if blind {
+            // only this property's raw monitors are judged; the model is merely an argument source now
+            if let Some(f) = fs.iter().find(|f| ctx.owns(f) && !f.sig.starts_with("model/") && !f.sig.starts_with("outcome/")) {
+                violation = Some(Violation {
+                    prop: ctx.prop.to_string(),
+                    sig: f.sig.clone(),
+                    detail: format!("{} [observed {} calls after an earlier finding that belongs to another property]", f.detail, blind_steps),
+                    workload: workload.clone(),
+                    step,
+                    ops: ops.clone(),
+                });
+                break;
+            }
+            blind_steps += 1;
+            cov.bump("calls_continued_after_foreign_finding");
+            if blind_steps > 60 || !liveness_agrees(&st) || step + 1 == len {
+                break;
+            }
+            continue;
+        }
         let (v, stop) = judge(ctx, &fs, cov, &workload, step, &ops);
         if v.is_some() {
             violation = v;
+        }
+        if (stop || info.diverged) && violation.is_none() && raw_prop && liveness_agrees(&st) && step + 1 < len {
+            // C01 / C02 quantify over every sequence of valid calls: a structure that another
+            // property's monitor already rejected may still turn into a cycle / ill-formed links later
+            blind = true;
+            continue;
         }
         if stop || info.diverged {
             break;
@@ -583,12 +629,13 @@ pub fn w2_items(max_n: usize) -> Vec<Shape> {
 /// Generation churn: recycle few slots tens of thousands of times.
 /// Light-weight bookkeeping (no per-step clones) so that 10^5 cycles are cheap.
 pub fn run_w3(ctx: &Ctx, nslots: usize, cycles: u64, mode: u8, cov: &mut Cov) -> Option<Violation> {
-    // mode 0: plain ping-pong, 1: + remove_subtree bursts, 2: + rotating fresh companion slots
+    // mode 0: plain ping-pong, 1: + remove_subtree bursts, 2: + rotating fresh companion slots (two removes),
+    // 3: fresh companions and the worn-out node freed by one remove_subtree call
     let with_subtrees = mode == 1;
-    let companions = mode == 2;
+    let companions = mode == 2 || mode == 3;
     use crate::payload::Plain;
     use indextree::NodeId;
-    let workload = format!("w3-{}slots-{}cycles{}", nslots, cycles, match mode { 1 => "-subtree", 2 => "-companions", _ => "" });
+    let workload = format!("w3-{}slots-{}cycles{}", nslots, cycles, match mode { 1 => "-subtree", 2 => "-companions", 3 => "-companions-subtree", _ => "" });
     let mut rng = Rng::derive(ctx.seed, 4, nslots as u64 * 1000 + cycles);
     let mut arena: Arena<Plain> = Arena::new();
     // (id, slot, removed)
@@ -739,6 +786,39 @@ pub fn run_w3(ctx: &Ctx, nslots: usize, cycles: u64, mode: u8, cov: &mut Cov) ->
                     Err(v) => return v,
                 }
             }
+        } else if mode == 3 {
+            // one remove_subtree call frees [fresh companion, worn-out node, fresh companion] in pre-order
+            let j = (cyc as usize / 2) % (comp.len() - 1);
+            let (c1, c2, w) = (comp[j], comp[j + 1], cur[k]);
+            let worn_slot = hist[w].1;
+            let (i1, i2, iw) = (hist[c1].0, hist[c2].0, hist[w].0);
+            let r = guarded(|| {
+                i1.append(iw, &mut arena);
+                i1.append(i2, &mut arena);
+                i1.remove_subtree(&mut arena);
+            });
+            if let Err(p) = r {
+                return viol("remove_subtree-panic", p, cyc);
+            }
+            for i in [c1, w, c2] {
+                hist[i].2 = true;
+                if !retired.contains(&hist[i].1) {
+                    free.push(hist[i].1);
+                }
+            }
+            let mut got = Vec::new();
+            for _ in 0..3 {
+                match alloc(&mut arena, None, &mut hist, &mut issued, &mut recycles, &mut retired, &mut free, cyc) {
+                    Ok(i) => got.push(i),
+                    Err(v) => return v,
+                }
+            }
+            if let Some(pos) = got.iter().position(|g| hist[*g].1 == worn_slot) {
+                got.swap(0, pos);
+            }
+            cur[k] = got[0];
+            comp[j] = got[1];
+            comp[j + 1] = got[2];
         } else if companions {
             // free the churned node and one rarely used companion (order alternates), then allocate twice
             let j = (cyc as usize / 2) % comp.len();
@@ -893,6 +973,65 @@ pub fn run_w3(ctx: &Ctx, nslots: usize, cycles: u64, mode: u8, cov: &mut Cov) ->
     None
 }
 
+/// Generation churn on a drop-counting payload: every removal must drop exactly the removed
+/// node's payload, at every generation of the slot including the last one.
+pub fn run_w3_tok(ctx: &Ctx, cycles: u64, cov: &mut Cov) -> Option<Violation> {
+    use crate::payload::{drops_of, drops_reset, drops_total, made_total, Tok};
+    let workload = format!("w3tok-{}cycles", cycles);
+    cov.histories += 1;
+    {
+        let mut c = ctx.beacon.current.lock().unwrap();
+        c.0 = workload.clone();
+        c.1.clear();
+    }
+    let viol = |sig: &str, detail: String, cyc: u64| {
+        Some(Violation {
+            prop: ctx.prop.to_string(),
+            sig: format!("churn-tok/{}", sig),
+            detail: format!("{} (cycle {}, workload {})", detail, cyc, workload),
+            workload: format!("{}@{}", workload, cyc),
+            step: cyc as usize,
+            ops: Vec::new(),
+        })
+    };
+    drops_reset();
+    let mut arena: Arena<Tok> = Arena::new();
+    let keep = arena.new_node(Tok::make(0, 5));
+    let mut tid = 1u64;
+    let mut cur = arena.new_node(Tok::make(tid, tid));
+    let mut evals = 0u64;
+    for cyc in 1..=cycles {
+        ctx.beacon.tick.fetch_add(1, Ordering::Relaxed);
+        if let Err(p) = guarded(|| cur.remove(&mut arena)) {
+            return viol("remove-panic", p, cyc);
+        }
+        if drops_of(tid) != 1 {
+            return viol("not-dropped-at-removal", format!("payload token {} of the node removed in this cycle was dropped {} times", tid, drops_of(tid)), cyc);
+        }
+        if drops_of(0) != 0 || arena[keep].get().val() != 5 {
+            return viol("bystander-dropped", "the bystander's payload was dropped or changed".into(), cyc);
+        }
+        tid += 1;
+        cur = match guarded(|| arena.new_node(Tok::make(tid, tid))) {
+            Ok(id) => id,
+            Err(p) => return viol("alloc-panic", p, cyc),
+        };
+        if drops_of(tid) != 0 || arena[cur].get().tid() != tid {
+            return viol("live-payload", format!("freshly stored payload token {} already dropped / not readable", tid), cyc);
+        }
+        evals += 3;
+    }
+    drop(arena);
+    if drops_of(0) != 1 || drops_of(tid) != 1 || made_total() != drops_total() {
+        return viol("conservation-after-arena-drop", format!("created {} payloads, {} drops after the arena was dropped", made_total(), drops_total()), cycles);
+    }
+    cov.calls += cycles * 2;
+    cov.evaluations += cycles;
+    cov.observations += evals;
+    cov.add("tok_churn_cycles", cycles);
+    None
+}
+
 // ------------------------------------------------------------------ replay
 
 /// Re-executes an explicit history with this property's monitors on every step.
@@ -900,10 +1039,17 @@ pub fn replay_ops<P: Payload>(ctx: &Ctx, ops: &[Op], cov: &mut Cov, tok: bool, h
     let mut st: State<P> = State::new();
     let mut rng = Rng::derive(ctx.seed, 9, 9);
     let mut done: Vec<Op> = Vec::new();
+    let mut blind = false;
     if tok {
         crate::payload::drops_reset();
     }
     for (i, op) in ops.iter().enumerate() {
+        ctx.beacon.tick.fetch_add(1, Ordering::Relaxed);
+        {
+            let mut c = ctx.beacon.current.lock().unwrap();
+            c.0 = "replay".into();
+            c.1.push(op.clone());
+        }
         // arguments must exist
         let ok = match op {
             Op::Ins { t, x, .. } => *t < st.model.nodes.len() && *x < st.model.nodes.len(),
@@ -922,9 +1068,31 @@ pub fn replay_ops<P: Payload>(ctx: &Ctx, ops: &[Op], cov: &mut Cov, tok: bool, h
         if !info.diverged {
             fs.extend(hook.after_step(ctx, &mut st, &info, true, &mut rng, cov));
         }
+        let raw_prop = ctx.is("C01") || ctx.is("C02");
+        if blind {
+            if let Some(f) = fs.iter().find(|f| ctx.owns(f) && !f.sig.starts_with("model/") && !f.sig.starts_with("outcome/")) {
+                return Some(Violation {
+                    prop: ctx.prop.to_string(),
+                    sig: f.sig.clone(),
+                    detail: f.detail.clone(),
+                    workload: "replay".into(),
+                    step: i,
+                    ops: done.clone(),
+                });
+            }
+            if !liveness_agrees(&st) {
+                eprintln!("replay: arena and model disagree on which slots are live after op #{}; stopping", i);
+                return None;
+            }
+            continue;
+        }
         let (v, stop) = judge(ctx, &fs, cov, "replay", i, &done);
         if v.is_some() {
             return v;
+        }
+        if (stop || info.diverged) && raw_prop && liveness_agrees(&st) {
+            blind = true;
+            continue;
         }
         if stop || info.diverged {
             eprintln!("replay: stopped at op #{} on a finding that belongs to another property: {:?}", i, fs.first().map(|f| (&f.props, &f.sig)));
